@@ -14,6 +14,10 @@ def amInsert {β : Type} (k : Nat) (v : β) : List (Nat × β) → List (Nat × 
     else if k = k' then (k, v) :: rest
     else (k', v') :: amInsert k v rest
 
+def amErase {β : Type} (k : Nat) : List (Nat × β) → List (Nat × β)
+  | [] => []
+  | (k', v') :: rest => if k = k' then rest else (k', v') :: amErase k rest
+
 def amLookup {β : Type} (k : Nat) : List (Nat × β) → Option β
   | [] => none
   | (k', v') :: rest => if k = k' then some v' else amLookup k rest
